@@ -80,14 +80,19 @@ func batteryTx() []TxOp {
 	return ops
 }
 
-// enumPrograms calls f with every program of the enumeration.
-func enumPrograms(depth int, f func(ops []Op)) {
+// enumPrograms calls f with every program of the enumeration. allSplits: every split
+// of a sequence into committed prefix + one transaction / bulk batch; otherwise only
+// the whole sequence at top level, in one transaction, in one batch.
+func enumPrograms(depth int, allSplits bool, f func(ops []Op)) {
 	top, txb := batteryTop(), batteryTx()
 	var rec func(seq []Op)
 	rec = func(seq []Op) {
 		// all at top level
 		f(append(append([]Op{}, seq...), top...))
 		for i := 0; i < len(seq); i++ {
+			if i > 0 && !allSplits {
+				break
+			}
 			suffix := seq[i:]
 			txOK, bulkOK := true, true
 			for _, m := range suffix {
@@ -139,7 +144,7 @@ func TestEnumerateSmallScope(t *testing.T) {
 		return
 	}
 	i := 0
-	enumPrograms(pbt.Pick(3, 4), func(ops []Op) {
+	enumPrograms(pbt.Pick(3, 4), pbt.Thorough(), func(ops []Op) {
 		i++
 		if !pbt.ShardOwns(i) { // a program runs on all drivers in the same shard
 			return
